@@ -298,6 +298,11 @@ func GenProgram(r *Rand, o ProgOpts) []Op {
 				for j, k := 0, r.Range(1030, 2600); j < k; j++ {
 					t.Sub = append(t.Sub, Op{K: "put", Key: []byte(fmt.Sprintf("many/%04d", j)), Tag: nextTag(), Len: r.Range(0, 6)})
 				}
+				if r.Bool(0.3) {
+					// ... one of whose last entries is too large for a log record: the
+					// commit fails as a whole, whatever was handed over before it
+					t.Sub[len(t.Sub)-1-r.Intn(25)].Len = r.Range(33000, 40000)
+				}
 				t.Commit = true
 				m = 0
 			}
